@@ -134,6 +134,21 @@ UNIT_IN = {
     "UnitQuaternion.AngVec": lambda u: UnitQuaternion.AngVec(U(u), [1, 2, 3], unit=u),
     "Twist3.Rx": lambda u: Twist3.Rx(U(u), unit=u), "Twist3.Ry": lambda u: Twist3.Ry(U(u), unit=u),
     "Twist3.Rz": lambda u: Twist3.Rz(U(u), unit=u), "getunit": lambda u: b.getunit(U(u), u),
+    # sequence forms: a vector of angles / an N x 3 array of angle triples
+    "SO2(vector)": lambda u: SO2([U(u), -U(u) / 2], unit=u),
+    "SO3.Rx(vector)": lambda u: SO3.Rx([U(u), -U(u) / 2], unit=u), "SO3.Ry(vector)": lambda u: SO3.Ry([U(u), -U(u) / 2], unit=u),
+    "SO3.Rz(vector)": lambda u: SO3.Rz(np.array([U(u), -U(u) / 2]), unit=u),
+    "SE3.Rx(vector)": lambda u: SE3.Rx([U(u), -U(u) / 2], unit=u), "SE3.Ry(vector)": lambda u: SE3.Ry(np.array([U(u), -U(u) / 2]), unit=u),
+    "SE3.Rz(vector)": lambda u: SE3.Rz([U(u), -U(u) / 2], unit=u),
+    "UnitQuaternion.Rx(vector)": lambda u: UnitQuaternion.Rx([U(u), -U(u) / 2], unit=u),
+    "Twist3.Rx(vector)": lambda u: Twist3.Rx([U(u), -U(u) / 2], unit=u),
+    "SO3.RPY(Nx3)": lambda u: SO3.RPY(np.array([[U(u), -U(u) / 2, U(u) * 2], [U(u) / 3, U(u), -U(u)]]), unit=u),
+    "SE3.RPY(Nx3)": lambda u: SE3.RPY(np.array([[U(u), -U(u) / 2, U(u) * 2], [U(u) / 3, U(u), -U(u)]]), unit=u),
+    "SO3.Eul(Nx3)": lambda u: SO3.Eul(np.array([[U(u), -U(u) / 2, U(u) * 2], [U(u) / 3, U(u), -U(u)]]), unit=u),
+    "SE3.Eul(Nx3)": lambda u: SE3.Eul(np.array([[U(u), -U(u) / 2, U(u) * 2], [U(u) / 3, U(u), -U(u)]]), unit=u),
+    "Twist3.exp(theta)": lambda u: Twist3.Rx(1.0).exp(U(u), units=u), "Twist3.exp(vector)": lambda u: Twist3.Rx(1.0).exp([U(u), -U(u) / 2], units=u),
+    "Twist2.exp(theta)": lambda u: Twist2([1, 2, 1.0]).exp(U(u), units=u),
+    "Twist2.exp(vector)": lambda u: Twist2([1, 2, 1.0]).exp([U(u), -U(u) / 2], units=u),
 }
 
 # output-angle entries: f(unit, R, T, H, order) returns angles in `unit`; deg must be rad * 180/pi
